@@ -2,6 +2,7 @@
 the oracle recounts from the implementation's own Table::destinations output."""
 from gen import ribcommon as R
 from gen import ribenum as E
+from gen import c15sess as S
 from gen.c02 import Prop as C02
 
 U64 = 1 << 64
@@ -11,8 +12,9 @@ class Prop(C02):
     props_file = 'Props/C15.v'
     required_theorems = ['no_empty_destination', 'stats_eq_recount', 'no_counter_underflow', 'table_totals_eq_recount',
                          'limit_counter_refuted', 'limit_respected_outside_known', 'limit_rejection_installs_nothing',
-                         'remove_finds_stats', 'stats_eq_adjin_view', 'known_class_narrowed', 'limit_signalled_only_when_full']
-    extra_targets = ['Model/Rib.vo']
+                         'remove_finds_stats', 'stats_eq_adjin_view', 'known_class_narrowed', 'limit_signalled_only_when_full',
+                         'limit_counter_eq_recount', 'limit_respected', 'old_discipline_refuted']
+    extra_targets = ['Model/Rib.vo', 'Model/RibSession.vo']
     correspondence_name = 'Model/Rib.v step (route_stats, limit counters, Table::state) vs rustybgp_table::Table (harness/hx-rib, debug and release)'
     trusted_base = C02.trusted_base + [
         'a prefix-limit counter (Arc<AtomicU64>) is named by the Source token of the session it belongs to; how daemon/src/event/mod.rs PeerSession.prefix_counters '
@@ -33,7 +35,12 @@ class Prop(C02):
         for k in range(n):
             w = dict(ins=10, rem=4, drop=1, dropk=3, restale=2, nhv=1, reconnect=(1 if k % 2 else 0), deferral=0)
             cases.append(R.gen_history(rng, rng.randint(5, 40), limits=(k % 5 != 4), weights=w))
-        return cases
+        # the repaired caller discipline: a session synchronises its counter with the RIB when it
+        # starts acting for a peer and after a purge that ran without the counter
+        for c in cases:
+            c['ops'] = R.add_syncs(c['ops'])
+        # the same discipline on the real daemon glue (sessions over loopback TCP), enumerated
+        return S.enumerate_cases(tier) + cases
 
     def corpus_cases(self):
         import glob, json, os
@@ -42,67 +49,101 @@ class Prop(C02):
             out.append(R.case_from_json(json.load(open(f))['case']))
         return out
 
+    @staticmethod
+    def _split(cases):
+        si = [i for i, c in enumerate(cases) if c.get('kind') == 'sess']
+        ri = [i for i, c in enumerate(cases) if c.get('kind') != 'sess']
+        return si, ri
+
     def run_impl(self, cases, tier):
-        a, err = R.run_impl('C15', cases, release=False)
-        if a is None:
-            return None, err
-        b, err = R.run_impl('C15r', cases, release=True)
-        if b is None:
-            return None, err
-        return [x if R.canon_obs(x) == R.canon_obs(y) else [-1, 'debug/release differ'] for x, y in zip(a, b)], ''
+        si, ri = self._split(cases)
+        out = [None] * len(cases)
+        if ri:
+            rc = [cases[i] for i in ri]
+            a, err = R.run_impl('C15', rc, release=False)
+            if a is None:
+                return None, err
+            b, err = R.run_impl('C15r', rc, release=True)
+            if b is None:
+                return None, err
+            for i, x, y in zip(ri, a, b):
+                out[i] = x if R.canon_obs(x) == R.canon_obs(y) else [-1, 'debug/release differ']
+        if si:
+            a, err = S.run_impl([cases[i] for i in si])
+            if a is None:
+                return None, err
+            for i, x in zip(si, a):
+                out[i] = x
+        return out, ''
 
     def run_model(self, cases, tier):
-        return R.run_model('C15', cases)
+        si, ri = self._split(cases)
+        out = [None] * len(cases)
+        if ri:
+            a, err = R.run_smodel('C15', [cases[i] for i in ri])
+            if a is None:
+                return None, err
+            for i, x in zip(ri, a):
+                out[i] = x
+        if si:
+            a, err = S.run_model([cases[i] for i in si])
+            if a is None:
+                return None, err
+            for i, x in zip(si, a):
+                out[i] = ['model', x]
+        return out, ''
+
+    def canon(self, c, obs):
+        if c.get('kind') == 'sess':
+            if obs and obs[0] == 'model':
+                return obs[1]
+            return S.canon(c, obs, False)
+        return R.canon_obs(obs)
 
     def oracle(self, c, obs):
+        if c.get('kind') == 'sess':
+            return S.oracle(c, obs)
         if obs and obs[0] == -1:
             return 'panic (statistics underflow) or debug/release divergence in the RIB'
         addr_of_tok = {}
-        lim_of = {}
         for o in c['ops']:
             if o[0] in ('ins', 'rem'):
                 addr_of_tok[o[1][0]] = o[1][1]
-            if o[0] == 'ins' and o[8] is not None:
-                lim_of[o[8][1]] = o[8][0]
-            if o[0] == 'drop' and o[3] is not None:
-                addr_of_tok.setdefault(o[3], o[2])
-        ended = set()            # sessions whose peer was dropped (the counter dies with the session)
-        # Known finding C15-session-counter, as narrow as the defect: a session c is TAINTED once an
-        # operation acting for a session (insert, withdrawal, purge carrying its counter) touches a
-        # destination that holds a path of the same peer belonging to ANOTHER session, and c is the
-        # acting session or the owner of such a path.  Only failures of tainted sessions' counters
-        # are attributed to the finding; everything else is a violation, and a known failure never
-        # hides a later one (the scan goes on; the first non-attributed failure wins).
-        tainted = set()
-        known_fail = None
-        diverged = set()
-        def foreign(prev_dest_entries, addr, tok):
-            return set(e[1] for e in prev_dest_entries if addr_of_tok.get(e[1]) == addr and e[1] != tok)
+            if o[0] == 'sync':
+                addr_of_tok.setdefault(o[1], o[2])
+        # the live session of a peer (its counter was synchronised with the RIB) and whether a purge
+        # ran without the counter since
+        cur = {}; pending = set()
         for k, (o, step) in enumerate(zip(c['ops'], obs)):
             chs, lim, st = step
             loc, dests, totals, stats, ctrs, bad = st[:6]
             prev = {d[0]: d[1] for d in obs[k - 1][2][1]} if k > 0 else {}
-            if o[0] == 'drop' and o[1] == 0:
-                ended |= set(t for t, a in addr_of_tok.items() if a == o[2])
-            # a peer has one live session: once a newer Source of the peer acts, the
-            # older sessions (and their counters) are gone
-            cur = o[1][0] if o[0] in ('ins', 'rem') else (o[3] if o[0] == 'drop' and o[3] is not None else None)
-            if cur is not None:
-                a_cur = addr_of_tok.get(cur, cur % 10)
-                ended |= set(t for t, a in addr_of_tok.items() if a == a_cur and t < cur)
-            if o[0] == 'ins' and not lim:
-                f = foreign(prev.get(o[2], []), o[1][1], o[1][0])
-                if f: tainted |= f | {o[1][0]}
-            if o[0] == 'rem' and any(addr_of_tok.get(e[1]) == o[1][1] and e[0] == o[3] for e in prev.get(o[2], [])):
-                f = foreign(prev.get(o[2], []), o[1][1], o[1][0])
-                if f: tainted |= f | {o[1][0]}
-            if o[0] == 'drop' and o[1] != 0 and o[3] is not None:
-                now = {d[0]: d[1] for d in dests}
-                f = set()
-                for net, es in prev.items():
-                    if len(now.get(net, [])) < len(es):        # the purge removed something here
-                        f |= foreign(es, o[2], o[3])
-                if f: tainted |= f | {o[3]}
+            held_before = lambda a: sum(1 for es in prev.values() if any(addr_of_tok.get(e[1]) == a for e in es))
+            if o[0] == 'sync':
+                cur[o[2]] = o[1]; pending.discard(o[2])
+            elif o[0] in ('ins', 'rem'):
+                tok, a = o[1][0], o[1][1]
+                used = (o[8][1] if o[8] is not None else None) if o[0] == 'ins' else o[4]
+                if cur.get(a) is not None and (cur[a] != used or a in pending):
+                    cur.pop(a)                       # not the discipline: nothing is claimed for this session any more
+                if o[0] == 'ins' and o[8] is not None and cur.get(a) == used:
+                    mx = o[8][0]
+                    new = not any(addr_of_tok.get(e[1]) == a for e in prev.get(o[2], []))
+                    if lim and not (new and held_before(a) >= mx):
+                        return 'step %d: peer %d holds %d prefixes, limit %d, yet its %s prefix %d was refused' % (
+                            k, a, held_before(a), mx, 'new' if new else 'known', o[2])
+                    if not lim and new and held_before(a) >= mx:
+                        return 'step %d: a new prefix of peer %d was accepted although the peer already held %d prefixes (limit %d)' % (k, a, held_before(a), mx)
+            elif o[0] == 'drop':
+                a = o[2]
+                if o[1] == 0:
+                    cur.pop(a, None); pending.discard(a)
+                elif cur.get(a) is not None:
+                    if o[3] is None: pending.add(a)
+                    elif o[3] != cur[a] or a in pending: cur.pop(a)
+            # a rejected insert installs nothing
+            if lim and k > 0 and sorted(map(repr, dests)) != sorted(map(repr, obs[k - 1][2][1])):
+                return 'step %d: an insert answered PrefixLimitExceeded changed the RIB' % k
             # table totals
             nd = len(dests); npaths = sum(len(d[1]) for d in dests)
             nacc = sum(1 for d in dests for e in d[1] if not e[3])
@@ -118,50 +159,35 @@ class Prop(C02):
                 got = s[1:] if len(s) == 3 else [0, 0]
                 if got != [rcv, acc]:
                     return 'step %d: peer %d statistics (received, accepted) = %s, recount %s' % (k, a, got, [rcv, acc])
-            # a rejected insert installs nothing
-            if lim and k > 0 and sorted(map(repr, dests)) != sorted(map(repr, obs[k - 1][2][1])):
-                return 'step %d: an insert answered PrefixLimitExceeded changed the RIB' % k
-            if lim and o[0] == 'ins' and o[8] is not None and o[8][1] not in tainted and o[8][1] not in ended:
-                held = sum(1 for es in prev.values() if any(e[1] == o[8][1] for e in es))
-                if held < o[8][0]:
-                    return 'step %d: session %d holds %d prefixes, limit %d, yet a new prefix was rejected' % (k, o[8][1], held, o[8][0])
-            # per-session limit counters
-            for cid, v in zip(c['ctrs'], ctrs):
-                if cid not in lim_of or cid in ended or cid in diverged:
+            # the prefix-limit counter of every live session: the prefixes its peer holds, stale ones included
+            for a, tok in cur.items():
+                if a in pending or tok not in c['ctrs']:
                     continue
-                why = None
-                mine = sum(1 for d in dests if any(e[1] == cid for e in d[1]))
+                v = ctrs[c['ctrs'].index(tok)]
+                mine = sum(1 for d in dests if any(addr_of_tok.get(e[1]) == a for e in d[1]))
                 if v >= U64 // 2:
-                    why = 'step %d: prefix-limit counter of session %d underflowed (%d)' % (k, cid, v)
-                elif mine > lim_of[cid]:
-                    why = 'step %d: session %d holds %d prefixes, limit %d' % (k, cid, mine, lim_of[cid])
-                elif v != mine:
-                    why = 'step %d: prefix-limit counter of session %d is %d, recount %d' % (k, cid, v, mine)
-                if why is None:
-                    continue
-                if cid in tainted:
-                    diverged.add(cid)
-                    if known_fail is None:
-                        known_fail = why + ' [an operation of one session of the peer touched a path of another]'
-                else:
-                    return why
-        return known_fail
-
-    @staticmethod
-    def _restarted(c, addr):
-        toks = set(o[1][0] for o in c['ops'] if o[0] in ('ins', 'rem') and o[1][1] == addr)
-        return len(toks) > 1
+                    return 'step %d: prefix-limit counter of session %d (peer %d) underflowed (%d); the peer holds %d prefixes' % (k, tok, a, v, mine)
+                if v != mine:
+                    return 'step %d: prefix-limit counter of session %d is %d, its peer %d holds %d prefixes' % (k, tok, v, a, mine)
+        return None
 
     def in_known_class(self, kf, c, obs, why):
-        if kf['id'] == 'C15-session-counter':
-            # the class: the counter of a session that was party to a cross-session touch (see oracle)
-            return why.endswith('[an operation of one session of the peer touched a path of another]')
         return False
 
     def nontrivial_key(self, c, obs):
         if obs and obs[0] == -1:
             return ('panic',)
+        if c.get('kind') == 'sess':
+            return ('sess', c['limit'], tuple((x[0], x[1], x[2]) for x in obs)) if any(x[0] and x[2] > 0 for x in obs) else None
         seq = tuple((tuple(st[2][2]), tuple(map(tuple, st[2][3])), tuple(st[2][4])) for st in obs)
         if any(o[0] in ('rem', 'drop') for o in c['ops']) and any(any(x > 0 for x in s[2]) for s in seq):
             return seq
         return None
+
+    def classify(self, c, obs):
+        if c.get('kind') == 'sess':
+            return S.classify(c, obs)
+        tags = C02.classify(self, dict(c, ops=[o for o in c['ops'] if o[0] != 'sync']), [s for o, s in zip(c['ops'], obs) if o[0] != 'sync'] if obs and obs[0] != -1 else obs)
+        if any(o[0] == 'sync' for o in c['ops']):
+            tags.append('op_sync')
+        return tags
